@@ -20,6 +20,7 @@ Notation erec := (@erec hash tm dat).
 Inductive request :=
 | ReqDiff (checkpoint_root : hash) (patch : list erec)
 | ReqPatch (c : hash) (checkpoint_root : hash) (patch : list erec)
+| ReqInit (default_root : hash) (patch : list erec)   (* files log: checkpoint = CommitProof::default() *)
 | ReqRead.                                  (* status / scan / diff: no effect *)
 
 Definition head_is (l : elog) (r : hash) : bool :=
@@ -29,6 +30,13 @@ Definition srv_step (l : elog) (q : request) : elog * bool :=
   match q with
   | ReqRead => (l, true)
   | ReqDiff r patch => if head_is l r then (log_apply hash tm dat l patch, true) else (l, false)
+  | ReqInit r patch =>
+      (* merge_files: an initial diff is applied unchecked only when the log is empty; otherwise
+         it goes through the checked patch like any other diff *)
+      match l_tree l with
+      | [] => (log_apply hash tm dat l patch, true)
+      | _ => if head_is l r then (log_apply hash tm dat l patch, true) else (l, false)
+      end
   | ReqPatch c r patch =>
       match log_rewind hash hash_eqb tm dat l c with
       | RwOk l1 removed =>
@@ -41,3 +49,4 @@ Definition srv_step (l : elog) (q : request) : elog * bool :=
 Definition srv_run (l : elog) (qs : list request) : elog := fold_left (fun s q => fst (srv_step s q)) qs l.
 End SrvReq.
 Arguments ReqDiff {hash tm dat}. Arguments ReqPatch {hash tm dat}. Arguments ReqRead {hash tm dat}.
+Arguments ReqInit {hash tm dat}.
